@@ -4,7 +4,7 @@ CONSTANTS
   B = 3
   RecMax = 1
   Bodies <- BodiesThree
-  Kinds <- KindsMC3
+  Kinds <- KindsMCcore
   MaxDepth = 3
   Progs <- Programs
 INVARIANT TypeOK
